@@ -495,6 +495,12 @@ func corruptFile(t *simrt.Tape, meta string, forLibrary bool) ([]byte, string, [
 		panic("encoder produced an undecodable file: " + err.Error())
 	}
 	h := d.HdrLen
+	if !forLibrary && t.Bool(1, 24) {
+		// a file of many pages, nearly all of them still free (a file grown for
+		// long names since removed from the chains, or preallocated): 8 MiB and
+		// more, so that lengths read from the wrong place can still lie inside it
+		data = append(data, make([]byte, 8<<20+t.Draw(64)*refformat.PageSize-len(data)%refformat.PageSize)...)
+	}
 	put32 := func(off uint32, v uint32) {
 		if int(off)+4 <= len(data) {
 			binary.LittleEndian.PutUint32(data[off:], v)
@@ -546,7 +552,7 @@ func corruptFile(t *simrt.Tape, meta string, forLibrary bool) ([]byte, string, [
 			descs = append(descs, fmt.Sprintf("limit %#x", v))
 		case 4: // bucket head
 			r := rec()
-			vals := []uint32{40, h + 8, r.Off + 1, d.Limit + 64, uint32(len(data)) + 64, 0xfffffff0, r.Off}
+			vals := []uint32{40, h + 8, r.Off + 1, d.Limit + 64, uint32(len(data)) + 64, 0xfffffff0, r.Off, 0xfffffff8, 0xffffffe8, uint32(len(data)) - 8, uint32(len(data)) - 16}
 			v := vals[t.Draw(len(vals))]
 			b := uint32(t.Draw(refformat.NumHash))
 			if t.Bool(1, 2) {
@@ -585,7 +591,7 @@ func corruptFile(t *simrt.Tape, meta string, forLibrary bool) ([]byte, string, [
 			descs = append(descs, fmt.Sprintf("record %#x links to %#x", r.Off, q.Off))
 		case 9: // next beyond file / into header / unaligned
 			r := rec()
-			vals := []uint32{12, h + 4, uint32(len(data)) + 32, 0xfffffff0, r.Off + 7, 0xffffffff}
+			vals := []uint32{12, h + 4, uint32(len(data)) + 32, 0xfffffff0, r.Off + 7, 0xffffffff, 0xfffffff8, 0xffffffe8, uint32(len(data)) - 8, uint32(len(data)) - 16}
 			v := vals[t.Draw(len(vals))]
 			put32(r.Off+12, v)
 			descs = append(descs, fmt.Sprintf("record %#x next %#x", r.Off, v))
